@@ -158,7 +158,10 @@ impl<K: SimKernel<D>, const D: usize> Monitor<K, D> for C03<K, D> {
         let kernel_total: u64 = out0.counts.iter().filter(|(s, _)| crate::kfault::is_kernel_site(s)).map(|(_, n)| *n).sum();
         singles.extend(ksingles);
         let mut traces: Vec<(Vec<(String, u64)>, Vec<(String, u64)>)> = Vec::new();
-        for f in &singles {
+        for (fi, f) in singles.iter().enumerate() {
+            if fi % 16 == 15 {
+                crate::history::heartbeat(fi);
+            }
             let mut c = base.clone();
             let mut faults = ctx.oprec.faults.clone();
             faults.push(f.clone());
